@@ -141,6 +141,8 @@ pub mod mps;
 pub mod parse;
 pub mod qplib;
 pub mod random;
+#[cfg(feature = "verif-hooks")]
+pub mod verif;
 
 // Internal modules
 mod bound;
